@@ -472,7 +472,20 @@ for w_ in ("colors", "bits", "columns"):
 # numeric conversions of Primitive (C14), and the experiments of the last build hours (all tier "infeasible": documented
 # attempts, never selected by a registered check)
 # ---------------------------------------------------------------------------------------------------------------------
-ob("prim2_integer_ser", ["C04"], "primitive2.rs", unwind=14, cuts=X1_ALL, stubs=[FMT_STUB], timeout=900, mem_gb=16, tier="thorough",
+ob("prim2_integer_ser_i16", ["C04"], "primitive2.rs", unwind=14, cuts=X1_ALL, stubs=[FMT_STUB], timeout=900, mem_gb=16, tier="quick",
+   functions=["primitive::Primitive::serialize", "core::fmt::num::<impl Display for i32>::fmt"],
+   bound="every integer -32768..=32767: the token written for Integer(i) is an optional '-' and decimal digits with value i")
+ob("prim2_integer_ser_windows", ["C04"], "primitive2.rs", unwind=14, cuts=X1_ALL, stubs=[FMT_STUB], timeout=1500, mem_gb=16, tier="thorough",
+   functions=["primitive::Primitive::serialize", "core::fmt::num::<impl Display for i32>::fmt"],
+   bound="six 2^16-wide windows of the i32 range (both ends, the 6/7, 8/9 and 9/10 digit boundaries, negative 10/9): value of the token = i")
+ob("prim2_integer_ser_i24", ["C04"], "primitive2.rs", unwind=14, cuts=X1_ALL, stubs=[FMT_STUB], timeout=1500, mem_gb=16, tier="thorough",
+   functions=["primitive::Primitive::serialize", "core::fmt::num::<impl Display for i32>::fmt"],
+   bound="every 24-bit integer: value of the token = i")
+ob("prim2_keyword_ser", ["C04"], "primitive2.rs", unwind=14, cuts=X1_ALL, stubs=[FMT_STUB], timeout=900, mem_gb=16, tier="quick",
+   functions=["primitive::Primitive::serialize"], bound="both booleans and null: exactly the keywords true / false / null")
+ob("prim2_reference_ser", ["C04"], "primitive2.rs", unwind=14, cuts=X1_ALL, stubs=[FMT_STUB], timeout=1800, mem_gb=16, tier="thorough",
+   functions=["primitive::Primitive::serialize"], bound="object numbers 0..65535, generations 0..255: 'id gen R' with single spaces and decimal values")
+ob("prim2_integer_ser", ["C04"], "primitive2.rs", unwind=14, cuts=X1_ALL, stubs=[FMT_STUB], timeout=900, mem_gb=16, tier="infeasible",
    functions=["primitive::Primitive::serialize", "core::fmt::num::<impl Display for i32>::fmt"],
    bound="every i32: the token written for Integer(i) is an optional '-' and decimal digits with value i")
 ob("prim2_numeric_conversions", ["C14", "C01"], "primitive2.rs", unwind=4, cuts=X1_ALL, stubs=[FMT_STUB], timeout=900, mem_gb=12,
